@@ -420,7 +420,7 @@ fn consume_expr<'i>(
                             Rule::range_operator => 0,
                             Rule::integer => {
                                 pairs.next().unwrap(); // ..
-                                pair_start.as_str().parse().unwrap()
+                                peek_index(&pair_start)?
                             }
                             _ => unreachable!("peek start"),
                         };
@@ -429,7 +429,7 @@ fn consume_expr<'i>(
                             Rule::closing_brack => None,
                             Rule::integer => {
                                 pairs.next().unwrap(); // }
-                                Some(pair_end.as_str().parse().unwrap())
+                                Some(peek_index(&pair_end)?)
                             }
                             _ => unreachable!("peek end"),
                         };
@@ -704,6 +704,18 @@ fn consume_expr<'i>(
     };
 
     pratt.map_primary(term).map_infix(infix).parse(pairs)
+}
+
+/// Reads a `PEEK[..]` index; a literal that does not fit `i32` is reported as an error at its span.
+fn peek_index(pair: &Pair<'_, Rule>) -> Result<i32, Vec<Error<Rule>>> {
+    pair.as_str().parse().map_err(|_| {
+        vec![Error::new_from_span(
+            ErrorVariant::CustomError {
+                message: "number cannot overflow i32".to_owned(),
+            },
+            pair.as_span(),
+        )]
+    })
 }
 
 /// Unescapes a string or character literal; an escape that denotes no `char`
